@@ -179,6 +179,12 @@ func c10Run(c *h.Ctx) {
 			c10Internal(c, id, c.Rng(id))
 		}
 	}
+	for k := 0; k < c.Pick(6, 40); k++ {
+		id := fmt.Sprintf("real%d", k)
+		if c.Case(id) {
+			c10Real(c, id, c.Rng(id))
+		}
+	}
 	for k := 0; k < c.Pick(3, 20); k++ {
 		id := fmt.Sprintf("faces%d", k)
 		if c.Case(id) {
@@ -420,7 +426,7 @@ func init() {
 		ID:    "C10",
 		Level: "exploration",
 		Rule: "valid Data/Interest packets built to exact sizes (minimum .. 8800, boundaries k*payload-1/k*payload/k*payload+1, MTU-overhead +-5) are sent through a real NDNLP link service over an in-memory transport (MTU 128..8800, fragmentation on/off, incoming-face indication on/off, output PIT token none/1/6/32 bytes independent of the incoming token, congestion mark); " +
-			"oracle at the sender: every frame <= MTU and one well-formed LpPacket, fitting packet => exactly one frame, fragmentation off => whole packet or nothing; the frames of up to three concurrent messages are delivered shuffled/reversed/rotated (plus one duplicated fragment) to a peer link service whose forwarding threads are recorders: each message delivered exactly once, byte-identical, same PIT token and congestion mark; distinct = (fits/oversize, options, token length, mark, frame count); concurrent faces: 2-4 link services of one process send 150-300 packets each at the same time, every face's peer must reassemble exactly that face's packets (bytes and PIT tokens, in order)",
+			"oracle at the sender: every frame <= MTU and one well-formed LpPacket, fitting packet => exactly one frame, fragmentation off => whole packet or nothing; the frames of up to three concurrent messages are delivered shuffled/reversed/rotated (plus one duplicated fragment) to a peer link service whose forwarding threads are recorders: each message delivered exactly once, byte-identical, same PIT token and congestion mark; distinct = (fits/oversize, options, token length, mark, frame count); concurrent faces: 2-4 link services of one process send 150-300 packets each at the same time, every face's peer must reassemble exactly that face's packets (bytes and PIT tokens, in order); real transports: the same link service over an accepted TCP connection / a Unix stream socket (MTU 300/1500/8800) sends packets whose frame comes out just below, exactly at and above the MTU - the peer must read exactly the frames a twin link service emits that fit the MTU",
 		Assumptions: []string{"worst-case header budget W is computed by the harness from the NDNLPv2 field sizes, not from the code's constants", "duplicates are limited to one fragment per message (a fully duplicated message legitimately reassembles twice)"},
 		Batches:     func(t bool) int { return 16 },
 		ChildTimeoutS: func(t bool) int {
